@@ -72,6 +72,7 @@ fn main() {
         "elf-load" => elfgen::run_elf_load(&args),
         "run-program" => runloop::run_run_program(&args),
         "sock-replay" => runloop::run_sock_replay(&args),
+        "tcp-frame" => runloop::run_tcp_frame(&args),
         "irq-replay" => stepped::run_irq_replay(&args),
         "acc-cases" => stepped::run_acc_cases(&args),
         "callret" => stepped::run_callret(&args),
